@@ -274,8 +274,9 @@ type Snapshot struct {
 func (r *Rig) Snap() Snapshot {
 	m := r.V.ML()
 	s := Snapshot{View: m.VerifDump(), Members: map[string]memberInfo{}, Queued: m.VerifQueued(), Health: m.GetHealthScore()}
+	live := liveOf(s.View)
 	for _, mb := range m.Members() {
-		s.Members[mb.Name] = memberInfo{mb.Addr.String(), mb.Port, string(mb.Meta)}
+		s.Members[mb.Name] = live[mb.Name] // names via the public API, fields from the locked dump
 	}
 	s.Susp = map[string]memberlist.VerifSuspicionInfo{}
 	for _, rec := range s.View.Records {
